@@ -281,6 +281,7 @@ class Summariser:
         self.loop_id = 0
         self.params = params or {}
         self._locals = {a.arg for a in fn.args.args + fn.args.kwonlyargs} | {n.id for n in ast.walk(fn) if isinstance(n, ast.Name) and isinstance(n.ctx, ast.Store)}
+        self._comp_effects: list = []
         self.depth = 0  # > 0 inside loop bodies / comprehensions: branches are merged there, forked at top level
         self.atoms = {}  # condition text -> (atoms if true, atoms if false)
         self.condterms = {}  # text of a conditional term -> (condition text, text if true, text if false)
@@ -387,7 +388,11 @@ class Summariser:
         v = p.value_obj
         if isinstance(v, Term) and v.kind == "bool" and p.kind == "return":
             # `return a and b` is `if a and b: return True else: return False`
-            base = v.text[4:] if v.text.startswith("not ") and v.text[4:] in self.atoms else v.text
+            base = v.text
+            if base.startswith("not (") and base.endswith(")") and base[5:-1] in self.atoms:
+                base = base[5:-1]
+            elif base.startswith("not ") and base[4:] in self.atoms:
+                base = base[4:]
             if base in self.atoms and "_i" not in base and "_e" not in base:
                 return base
         if isinstance(v, Seq):
@@ -402,7 +407,7 @@ class Summariser:
 
     def _specialise(self, p, ctext, branch: bool):
         v = p.value_obj
-        if isinstance(v, Term) and v.kind == "bool" and p.kind == "return" and v.text in (ctext, "not " + ctext):
+        if isinstance(v, Term) and v.kind == "bool" and p.kind == "return" and v.text in (ctext, "not " + ctext, f"not ({ctext})"):
             truth = branch if v.text == ctext else not branch
             p.value_obj = Term(repr(truth))
             p.value = repr(truth)
@@ -814,6 +819,7 @@ class Summariser:
             return state
         if isinstance(st, ast.Assign):
             v = self.ev(st.value, env)
+            self._drain(state)
             for t in st.targets:
                 self.assign(t, v, state)
             return state
@@ -829,6 +835,7 @@ class Summariser:
         if isinstance(st, ast.Return):
             state.term = "return"
             state.value = self.ev(st.value, env) if st.value is not None else Term("None")
+            self._drain(state)
             return state
         if isinstance(st, ast.Raise):
             state.term = "raise"
@@ -862,6 +869,11 @@ class Summariser:
                 return tree.state
             raise Unsupported("inlined helper with early exits")
         raise Unsupported(f"statement {type(st).__name__} at line {getattr(st, 'lineno', '?')}")
+
+    def _drain(self, state):
+        if self._comp_effects:
+            state.effects.extend(self._comp_effects)
+            self._comp_effects = []
 
     def assign(self, target, v, state):
         env = state.env
@@ -897,6 +909,17 @@ class Summariser:
             if st.orelse:
                 raise Unsupported("for/else")
             it = st.iter
+            if isinstance(it, ast.Name) and isinstance(env.get(it.id), Term) and env[it.id].kind is None:
+                # the iterable was computed before (`entries = value.values()`): iterate what the name stands for
+                try:
+                    parsed = ast.parse(env[it.id].text, mode="eval").body
+                    if isinstance(parsed, ast.Call) and isinstance(parsed.func, ast.Attribute) and parsed.func.attr in ("values", "items", "keys") and not parsed.args:
+                        it = parsed
+                        env = dict(env)
+                        for nm in [x.id for x in ast.walk(parsed) if isinstance(x, ast.Name)]:
+                            env.pop(nm, None)  # the text is already canonical: its names stand for themselves
+                except SyntaxError:
+                    pass
             if isinstance(it, ast.Call) and isinstance(it.func, ast.Name) and it.func.id == "range" and not it.keywords and 1 <= len(it.args) <= 3:
                 args = [self.poly(a, env) for a in it.args]
                 start = args[0] if len(args) > 1 else Poly.const(0)
@@ -1169,7 +1192,7 @@ class Summariser:
             if key in env:
                 return env[key]
             return Term(t)
-        if isinstance(node, ast.Call):
+        if isinstance(node, ast.Call) and not self._is_bool_call(node):
             return self.call(node, env)
         if isinstance(node, (ast.Compare, ast.BoolOp)) or (isinstance(node, ast.UnaryOp) and isinstance(node.op, ast.Not)) or self._is_bool_call(node):
             if isinstance(node, ast.Call) and isinstance(node.func, ast.Name) and node.func.id == "bool":
@@ -1209,6 +1232,9 @@ class Summariser:
             self.depth -= 1
         if not isinstance(tree, Leaf):
             raise Unsupported("comprehension with exits")
+        self._comp_effects.extend(tree.state.effects)  # what evaluating the comprehension calls, per element
+        if "__k__" in tree.state.env:
+            env["__k__"] = tree.state.env["__k__"]  # a comprehension is a loop like any other for the numbering
         return tree.state.env[acc]
 
     def binop(self, op, a, b):
